@@ -25,6 +25,25 @@ PROPS = {
         "quick": {"shards": 16, "cases": 60000, "require": {"evaluations": 500000, "fn": 300000, "agg": 50000, "tree_evaluations": 100000}},
         "thorough": {"shards": 16, "cases": 2500000, "watchdog_s": 7200, "require": {"evaluations": 20000000}},
     },
+    "C07": {
+        "technique": "runtime monitoring: generated SQL compiled to relations and executed *staged* on SQLite (one temp table per IR node); every node's rows are checked against its declared field types and size interval",
+        "level_text": "Exploration: ~25k generated queries per quick run (joins of all kinds, set operations, aggregates, DISTINCT, CTEs, derived tables, ORDER/LIMIT/OFFSET, targeted size probes) on conforming instances with empty tables, boundary values, NULLs and unmatched keys; ~10 IR nodes observed per query, each value decoded by declared type and tested with the membership oracle; one report per defect (consumers of a violating node are not judged again).",
+        "level_note": "Trusted: SQLite 3.40 + the declared compatibility layer (greatest, least, md5, concat, char_length, variance, stddev; VALUES alias shim), sqlparser, the membership oracle. Portable fragment only (ASCII text, no float->int/text casts, no dates).",
+        "rule": ("catalogue of 2-4 tables (id, foreign-key shaped ref, 2-5 typed columns, 25% nullable, declared size exact / interval, 0..12 rows) x 4 queries. "
+                 "evaluation = one executed IR node; distinct non-trivial = distinct (query, instance shape) pairs that executed."),
+        "assumptions": COMMON_ASSUME + ["SQLite executes the PostgreSQL rendering with PostgreSQL meaning inside the portable fragment"],
+        "quick": {"shards": 16, "cases": 1500, "watchdog_s": 1500, "require": {"evaluations": 150000, "executed_queries": 15000, "node:Join:LeftOuter": 1000, "node:Set:Union": 500, "node:Reduce": 5000}},
+        "thorough": {"shards": 16, "cases": 15000, "watchdog_s": 14400, "require": {"evaluations": 5000000}},
+    },
+    "C14": {
+        "technique": "runtime monitoring: same staged executions as C07; every field flagged UNIQUE / PRIMARY KEY at every IR node must have pairwise distinct non-NULL values",
+        "level_text": "Exploration: ~25k generated queries per quick run, half of them aimed at what uniqueness depends on (projections through functions listed as bijections, single/multiple GROUP BY keys with only some selected, joins on unique / non-unique keys of all kinds, UNION ALL, DISTINCT, LIMIT); ~50k flagged columns checked.",
+        "level_note": "Trusted: as C07. Values compare exactly (1 = 1.0, 0.0 = -0.0).",
+        "rule": ("as C07 with targeted uniqueness queries; evaluation = one executed IR node; distinct non-trivial = distinct executed (query, instance shape) pairs"),
+        "assumptions": COMMON_ASSUME + ["base tables honour their own UNIQUE / PRIMARY KEY flags (checked before every case)"],
+        "quick": {"shards": 16, "cases": 1500, "watchdog_s": 1500, "require": {"evaluations": 150000, "unique_columns_checked": 30000, "unique_in:Reduce": 3000, "unique_in:Join:Inner": 2000}},
+        "thorough": {"shards": 16, "cases": 15000, "watchdog_s": 14400, "require": {"evaluations": 5000000}},
+    },
     "C10": {
         "technique": "runtime monitoring: generated predicates evaluated by an independent three-valued evaluator on member rows; satisfying rows must be members of DataType::filter's result / of the join's output field types",
         "level_text": "Exploration: ~30k predicates (comparisons col/literal and col/col in both orders, int vs float, IN lists, AND/OR/NOT nests, IS NULL, boolean columns and literals, opaque sub-terms) x 8 rows each on struct types with optional columns, literals placed at the boundaries of the column ranges; plus joins of the four kinds whose ON clause is such a predicate, observed through the join schema. A satisfying row outside the narrowed type is reported with the witness.",
